@@ -220,6 +220,40 @@ def affected_tasks_cover_completed(ctx, rule):
                                               'workflow state'),
                    'joins are not refreshed while the workflow is %s'
                    % sorted(missing), ctx.loc(f, c))
+    # the de-duplication of refresh jobs ignores jobs that are already being
+    # processed: such a job has read the OLD inbound states, so it does not
+    # stand for the refresh that is needed now
+    inner = prog.funcs.get(f.qname + '.<locals>._schedule_if_needed')
+    if inner is None:
+        raise AnalysisError('_check_affected_tasks._schedule_if_needed lost')
+    icfg = ctx.cfg(inner)
+    hs = U.calls_in(icfg, 'has_scheduled_jobs')
+    sr = U.calls_in(icfg, '_schedule_refresh_task_state')
+    if not hs or not sr:
+        raise AnalysisError('_schedule_if_needed structure lost')
+    for n, c in hs:
+        pk = U.kwarg(c, 'processing')
+        kk = U.kwarg(c, 'key')
+        rule.check(pk is not None and norm(pk) == 'False' and
+                   kk is not None and
+                   U.phas(kk, '_get_refresh_state_job_key(%s)'
+                          % inner.params[0]),
+                   ctx.construct(inner, extra='only pending jobs of this '
+                                 'task count'),
+                   'refresh jobs that are already being processed (or jobs '
+                   'of another task) suppress the new refresh: a completion '
+                   'landing between "job ran" and "job deleted" is never '
+                   'seen by the join', ctx.loc(inner, c))
+    res = [x for x in own_nodes(inner.node) if isinstance(x, ast.Assign) and
+           isinstance(x.value, ast.Call) and
+           U.call_name(x.value) == 'has_scheduled_jobs']
+    var = dotted(res[0].targets[0]) if res else None
+    for n, c in sr:
+        rule.check(var is not None and U.guarded(icfg, n, var, False) and
+                   norm(c.args[0]) == inner.params[0],
+                   ctx.construct(inner, extra='schedule unless pending'),
+                   'the refresh is not scheduled exactly when no pending job '
+                   'exists', ctx.loc(inner, c))
     # every affected task gets a refresh registered
     loops = [x for x in own_nodes(f.node) if isinstance(x, ast.For) and
              any(isinstance(y, ast.Call) and
